@@ -22,31 +22,38 @@ NL = 10
 # ------------------------------------------------------------------------------------------------
 # atoms and the induced partition of Unicode
 
-def _atoms_of(tree, acc):
+SUPPORTED_FLAGS = re.I | re.A        # besides re.U, which every str pattern has
+
+
+def _fl(flags):
+    return flags & SUPPORTED_FLAGS
+
+
+def _atoms_of(tree, acc, flags=0):
     for op, av in tree:
         if op is LITERAL:
-            acc.add(('lit', av))
+            acc.add(('lit', av, flags & re.I))
         elif op is IN:
             for o, a in av:
                 if o is LITERAL:
-                    acc.add(('lit', a))
+                    acc.add(('lit', a, flags & re.I))
                 elif o is RANGE:
-                    acc.add(('range', a[0], a[1]))
+                    acc.add(('range', (a[0], a[1]), flags & re.I))
                 elif o is CATEGORY:
-                    acc.add(('cat', str(a)))
+                    acc.add(('cat', str(a), flags & re.A))
                 elif o is NEGATE:
                     pass
                 else:
                     raise HarnessError('unsupported class item %r' % (o,))
         elif op is BRANCH:
             for b in av[1]:
-                _atoms_of(b, acc)
+                _atoms_of(b, acc, flags)
         elif op is SUBPATTERN:
             if av[1] or av[2]:
-                raise HarnessError('inline flags are not supported')
-            _atoms_of(av[3], acc)
+                raise HarnessError('inline flag groups are not supported')
+            _atoms_of(av[3], acc, flags)
         elif op in (MAX_REPEAT, MIN_REPEAT):
-            _atoms_of(av[2], acc)
+            _atoms_of(av[2], acc, flags)
         elif op is AT:
             if av not in (AT_BEGINNING, AT_END):
                 raise HarnessError('unsupported anchor %r' % (av,))
@@ -54,15 +61,40 @@ def _atoms_of(tree, acc):
             raise HarnessError('unsupported regex construct %r' % (op,))
 
 
+def _scan(pattern_text, flags):
+    """all code points matched by a one-character pattern, asked of the real `re`"""
+    pat = re.compile(pattern_text, flags)
+    return frozenset(cp for cp in range(MAXCP) if not (0xD800 <= cp <= 0xDFFF) and pat.fullmatch(chr(cp)))
+
+
 _CAT_CACHE = {}
 
 
-def category_members(cat):
+def category_members(cat, flags=0):
     """code points matched by \\d / \\s, asked of the real `re` (one pass over Unicode)"""
-    if cat not in _CAT_CACHE:
-        pat = re.compile({'CATEGORY_DIGIT': r'\d', 'CATEGORY_SPACE': r'\s'}[cat])
-        _CAT_CACHE[cat] = frozenset(cp for cp in range(MAXCP) if not (0xD800 <= cp <= 0xDFFF) and pat.fullmatch(chr(cp)))
-    return _CAT_CACHE[cat]
+    k = (cat, flags)
+    if k not in _CAT_CACHE:
+        _CAT_CACHE[k] = _scan({'CATEGORY_DIGIT': r'\d', 'CATEGORY_SPACE': r'\s'}[cat], flags)
+    return _CAT_CACHE[k]
+
+
+def atom_members(a):
+    kind, payload, flags = a
+    if kind == 'lit':
+        if not flags:
+            return (payload,)
+        k = ('lit', payload, flags)
+        if k not in _CAT_CACHE:
+            _CAT_CACHE[k] = _scan(re.escape(chr(payload)), flags)
+        return _CAT_CACHE[k]
+    if kind == 'range':
+        if not flags:
+            return range(payload[0], payload[1] + 1)
+        k = ('range', payload, flags)
+        if k not in _CAT_CACHE:
+            _CAT_CACHE[k] = _scan('[%s-%s]' % (re.escape(chr(payload[0])), re.escape(chr(payload[1]))), flags)
+        return _CAT_CACHE[k]
+    return category_members(payload, flags)
 
 
 class Alphabet(object):
@@ -72,23 +104,17 @@ class Alphabet(object):
         atoms = set()
         self.trees = {}
         for name, p in patterns.items():
-            if p.flags & ~re.UNICODE:
-                raise HarnessError('pattern %s has flags %r' % (name, p.flags))
-            t = _parser.parse(p.pattern)
+            if p.flags & ~(re.UNICODE | SUPPORTED_FLAGS):
+                raise HarnessError('pattern %s has unsupported flags %r' % (name, re.RegexFlag(p.flags)))
+            t = _parser.parse(p.pattern, p.flags)
             self.trees[name] = t
-            _atoms_of(t, atoms)
-        atoms.add(('lit', NL))
+            _atoms_of(t, atoms, _fl(p.flags))
+        atoms.add(('lit', NL, 0))
         self.atoms = sorted(atoms, key=repr)
         # interesting code points: everything inside any finite atom or category; the rest is one class
         special = {}
         for ai, a in enumerate(self.atoms):
-            if a[0] == 'lit':
-                pts = (a[1],)
-            elif a[0] == 'range':
-                pts = range(a[1], a[2] + 1)
-            else:
-                pts = category_members(a[1])
-            for cp in pts:
+            for cp in atom_members(a):
                 special.setdefault(cp, set()).add(ai)
         groups = {}
         for cp, s in special.items():
@@ -113,7 +139,7 @@ class Alphabet(object):
     def cls(self, ch):
         return self.class_of_cp.get(ord(ch), self.other)
 
-    def classes_of_atomset(self, items):
+    def classes_of_atomset(self, items, flags=0):
         """class ids matched by a character set given as a list of atoms (with optional negation)"""
         neg = False
         want = set()
@@ -121,11 +147,11 @@ class Alphabet(object):
             if o is NEGATE:
                 neg = True
             elif o is LITERAL:
-                want.add(self.atom_index[('lit', a)])
+                want.add(self.atom_index[('lit', a, flags & re.I)])
             elif o is RANGE:
-                want.add(self.atom_index[('range', a[0], a[1])])
+                want.add(self.atom_index[('range', (a[0], a[1]), flags & re.I)])
             elif o is CATEGORY:
-                want.add(self.atom_index[('cat', str(a))])
+                want.add(self.atom_index[('cat', str(a), flags & re.A)])
         out = [ci for ci, c in enumerate(self.classes) if bool(c['vec'] & want) != neg]
         return out
 
@@ -137,8 +163,9 @@ class Alphabet(object):
 # NFA (Thompson) with two guarded epsilon kinds: BOL (only before any input) and EOS (only at end of input)
 
 class NFA(object):
-    def __init__(self, alpha, tree):
+    def __init__(self, alpha, tree, flags=0):
         self.alpha = alpha
+        self.flags = flags
         self.eps = []       # state -> list of (guard, target)   guard in (None, 'bol', 'eos')
         self.trans = []     # state -> list of (class id set, target)
         self.start = self.new()
@@ -156,11 +183,11 @@ class NFA(object):
         for op, av in tree:
             if op is LITERAL:
                 e = self.new()
-                self.trans[s].append((frozenset(self.alpha.classes_of_atomset([(LITERAL, av)])), e))
+                self.trans[s].append((frozenset(self.alpha.classes_of_atomset([(LITERAL, av)], self.flags)), e))
                 s = e
             elif op is IN:
                 e = self.new()
-                self.trans[s].append((frozenset(self.alpha.classes_of_atomset(av)), e))
+                self.trans[s].append((frozenset(self.alpha.classes_of_atomset(av, self.flags)), e))
                 s = e
             elif op is BRANCH:
                 e = self.new()
@@ -228,7 +255,7 @@ class DFA(object):
         self.alpha = alpha
         self.name = name
         self.pattern = pattern
-        self.nfa = NFA(alpha, _parser.parse(pattern.pattern))
+        self.nfa = NFA(alpha, _parser.parse(pattern.pattern, pattern.flags), _fl(pattern.flags))
         self.start = self._norm(self.nfa.closure([self.nfa.start], bol=True))
         self.delta = {}
         self._acc = {}
@@ -323,12 +350,13 @@ ALL_SPACES = [chr(c) for c in (9, 10, 11, 12, 13, 28, 29, 30, 31, 0x85, 0xa0, 0x
 
 
 class Skeletons(object):
-    def __init__(self, alpha, rich=False):
+    def __init__(self, alpha, rich=False, flags=0):
         self.alpha = alpha
+        self.flags = flags
         self.rich = rich      # thorough: more blanks / unicode digits as slot options
 
     def class_chars(self, items):
-        cis = self.alpha.classes_of_atomset(items)
+        cis = self.alpha.classes_of_atomset(items, self.flags)
         allm = []
         for ci in cis:
             allm.extend(chr(m) for m in self.alpha.classes[ci]['members'])
@@ -384,6 +412,8 @@ class Skeletons(object):
 
     def node(self, op, av):
         if op is LITERAL:
+            if self.flags & re.I:
+                return [(self.char_slot([(LITERAL, av)]),)]
             return [((chr(av),),)]
         if op is IN:
             return [(self.char_slot(av),)]
@@ -461,7 +491,7 @@ def fills(skel, pairs=False, triples=False):
 
 def enumerate_language(alpha, pattern, rich=False, pairs=False, triples=False):
     """(strings, number of skeletons); strings are distinct, in generation order (simplest first)"""
-    sk = Skeletons(alpha, rich).seq(_parser.parse(pattern.pattern))
+    sk = Skeletons(alpha, rich, _fl(pattern.flags)).seq(_parser.parse(pattern.pattern, pattern.flags))
     sk = list(dict.fromkeys(sk))
     seen = {}
     for k in sk:
